@@ -8,7 +8,7 @@
     property text (logical parents, nearest captured ancestor, values, enter/exit counts, follows-from
     edges among captured spans, closed = no handle, not entered, no open child), then the storage read
     off the final forest. *)
-From TT Require Import Capture.LayerProofs.
+From TT Require Import Capture.LayerProofs Capture.Footprint.
 
 (** The whole captured forest — spans and events the filter enabled, in emission order, metadata,
     values, parent links, child / event / follows-from lists, root lists, enter and exit counts, closed
@@ -47,6 +47,20 @@ Theorem C05_run_invariants :
       (forall k, reg_present r k = a_open (spec_run filter ids p) k) /\
       st = build filter (fun k => negb (reg_present r k)) (spec_run filter ids p).
 Proof. exact capture_run_invariants. Qed.
+
+(** "Each span's enter and exit counts equal what the program did", counted: in the forest the storage
+    is read off from ([spec_run]; [build] copies the two counters into [stats.entered] / [stats.exited]
+    of the captured span), the counters of span [k] are the numbers of enter / exit operations on [k] in
+    the execution - whoever issued them, in whatever order ([count_ops] counts, so any permutation of
+    the operations, e.g. another schedule, gives the same numbers). *)
+Theorem C05_enter_exit_counts :
+  forall (filter : cs_data -> bool) (ids : list N) (p : prog) (k : nat) (x : aspan),
+    wf_prog_stale p -> nth_error (a_spans (spec_run filter ids p)) k = Some x ->
+    as_entered x = count_ops (is_enter k) (p_ops p) /\ as_exited x = count_ops (is_exit k) (p_ops p).
+Proof. exact counters_are_counts. Qed.
+
+Theorem C05_counts_ignore_order : forall P a b, Permutation.Permutation a b -> count_ops P a = count_ops P b.
+Proof. exact count_ops_perm. Qed.
 
 (** Non-vacuity.  Sites: 0 = INFO span "fib" {approx, iter}, 1 = DEBUG event, 2 = TRACE span "child".
     Program: outer (INFO) > mid (TRACE, filtered out by [FLevel LInfo]) > leaf (INFO, explicit parent
